@@ -6,8 +6,9 @@ the patch and passes without) and run the quick checks of the named properties a
 import json, os, shutil, subprocess, sys, time
 
 sid, pdir, props = sys.argv[1:4]
+pdir = os.path.abspath(pdir)
 wt = "/tmp/mut"
-head = subprocess.run(["git", "-C", "/repo", "rev-parse", "HEAD"], capture_output=True, text=True).stdout.strip()
+head = subprocess.run(["git", "-C", "/repo", "rev-parse", os.environ.get("SEED_BASE", "HEAD")], capture_output=True, text=True).stdout.strip()
 if not os.path.isdir(wt):
     subprocess.run(["git", "-C", "/repo", "worktree", "add", "-q", "--detach", wt, head], check=True)
 subprocess.run(["git", "-C", wt, "checkout", "-q", "--detach", head], check=True)
@@ -23,10 +24,24 @@ def rundemo():
 meta = {"seed": sid, "repo_head": head, "properties_checked": props.split(",")}
 meta["demo_without_patch"] = rundemo()
 a = subprocess.run(["git", "-C", wt, "apply", patch], capture_output=True, text=True)
+if a.returncode != 0:      # context moved: let git merge it
+    a = subprocess.run(["git", "-C", wt, "apply", "--3way", patch], capture_output=True, text=True)
+    subprocess.run(["git", "-C", wt, "reset", "-q"], capture_output=True)
+    if a.returncode == 0:
+        meta["note"] = "applied with --3way (later fix commits moved the context)"
+old_meta = os.path.join("/verif/seeded", sid, "meta.json")
+if a.returncode != 0 and os.path.exists(old_meta):
+    # the repository moved on (later fix commits touch the same lines): confirm the seed on the commit it was written for
+    head = json.load(open(old_meta))["repo_head"]
+    meta["repo_head"] = head
+    meta["note"] = "patch no longer applies to /repo HEAD; evaluated on the commit it was written against"
+    subprocess.run(["git", "-C", wt, "checkout", "-q", "--detach", head], check=True)
+    meta["demo_without_patch"] = rundemo()
+    a = subprocess.run(["git", "-C", wt, "apply", patch], capture_output=True, text=True)
 meta["patch_applies"] = a.returncode == 0
 if a.returncode != 0:
     print("patch does not apply:", a.stderr[:300]); print(json.dumps(meta)); sys.exit(2)
-t = subprocess.run(["/venv/bin/python", "-m", "pytest", "-q", "-p", "no:cacheprovider"], cwd=wt, capture_output=True, text=True)
+t = subprocess.run(["/venv/bin/python", "-m", "pytest", "-q", "-p", "no:cacheprovider"], cwd=wt, capture_output=True, text=True, env=env)  # env: PYTHONPATH=<worktree>/src, else the editable install of /repo would be tested
 meta["repo_tests"] = t.stdout.strip().splitlines()[-1]
 meta["demo_with_patch"] = rundemo()
 meta["checks"] = {}
@@ -50,7 +65,7 @@ if valid:
     out = os.path.join("/verif/seeded", sid)
     os.makedirs(out, exist_ok=True)
     for f in ("patch.diff", "demo.py", "notes.md"):
-        if os.path.exists(os.path.join(pdir, f)):
+        if os.path.exists(os.path.join(pdir, f)) and os.path.abspath(pdir) != os.path.abspath(out):
             shutil.copy(os.path.join(pdir, f), out)
     meta["what_it_needs"] = "see notes.md"
     meta["ran"] = f"tools/seedeval.py {sid} {pdir} {props} (scratch worktree of /repo HEAD via VERIF_REPO; checks = quick tier)"
